@@ -511,6 +511,11 @@ fn gen_streams(master: u64, job: u64, tier: Tier) -> Vec<(Vec<u8>, String)> {
         let (c, _p, raw) = workload::gen_giant_block_stream(&mut rng);
         v.push((raw, c.describe()));
     }
+    if job % 32 == 7 {
+        // far matches around the offsets where the 16-bit hash-chain positions are slid down
+        let (c, _p, raw) = workload::gen_reshift_band_stream(&mut rng);
+        v.push((raw, format!("reshift-band text, {}", c.describe())));
+    }
     if job % 64 == 5 {
         // a non-final block of 65536 + m tokens (token counts that differ only above bit 16)
         let (c, _p, raw) = workload::gen_wraparound_block_stream(&mut rng);
